@@ -274,6 +274,9 @@ class Connection(object):
         elif isinstance(obj, netref.BaseNetref) and obj.____conn__ is self:
             return consts.LABEL_LOCAL_REF, obj.____id_pack__
         else:
+            if self._channel.closed:
+                # the peer can no longer be reached: do not start holding an object for it
+                raise EOFError("connection closed")
             id_pack = get_id_pack(obj)
             self._local_objects.add(id_pack, obj)
             return consts.LABEL_REMOTE_REF, id_pack
